@@ -20,15 +20,75 @@ func l2Plan(prop, tier string) []l2Prog {
 	add := func(entry, name string, as, cs map[int]string) {
 		ps = append(ps, l2Prog{entry: entry, name: name, assert: as, cover: cs})
 	}
-	switch prop {
-	case "C02":
+	f01ok := func() {
 		add("verifHarness_f01_ok", "Flow01 (3 tasks, fan-in, listed out of order), all tasks succeed",
 			map[int]string{1: "flow returns nil", 2: "Results target holds the provider's value", 3: "every task called exactly once", 4: "every parameter is the value returned by its provider"},
 			map[int]string{1: "result differs from the pre-value"})
-	case "C04", "C07":
+	}
+	f01fail := func() {
 		add("verifHarness_f01_fail", "Flow01, every task may fail or panic",
-			map[int]string{1: "nil iff nothing failed", 2: "results on success", 3: "Results untouched on failure", 4: "PanicError carries the panic value", 5: "returned error is the failing task's error", 6: "call counts"},
+			map[int]string{1: "nil iff nothing failed", 2: "results on success", 3: "Results untouched on failure", 4: "PanicError carries the panic value", 5: "returned error is the failing task's error", 6: "call counts: nothing twice, dependents of a failure not run"},
 			map[int]string{2: "dependent skipped", 3: "a task panicked", 4: "a task returned an error"})
+	}
+	f03 := func() {
+		add("verifHarness_f03", "Flow03: predicate (own input) gating a task; predicate {true,false,panic} x task {ok,err,panic}",
+			map[int]string{1: "nil iff reference did not fail", 2: "result equals reference (zero value through a false predicate)", 3: "consumer of the gated output runs once", 4: "consumer receives the zero value when the predicate is false", 5: "Results untouched on failure", 6: "error is the task's error / PanicError value", 7: "predicate evaluated exactly once", 8: "task runs when predicate is true", 9: "task never called when predicate false or panicked", 10: "predicate receives its provider's value", 11: "predicate evaluated before its task"},
+			map[int]string{1: "predicate false, flow succeeds", 2: "predicate true, flow succeeds", 3: "predicate panicked"})
+	}
+	f04 := func() {
+		add("verifHarness_f04", "Flow04: FallbackWith on a failing/panicking task",
+			map[int]string{1: "nil iff downstream did not fail", 2: "result equals reference using fallback only on failure", 3: "Results untouched on failure", 4: "error identity", 5: "each task called once", 6: "consumer receives provider or fallback value"},
+			map[int]string{1: "fallback used", 2: "fallback not used"})
+	}
+	f05 := func() {
+		add("verifHarness_f05", "Flow05: predicate with context mid-graph plus FallbackWith",
+			map[int]string{1: "nil iff reference did not fail", 2: "result equals reference", 3: "failure path", 4: "predicate evaluated once", 5: "predicate receives its provider's value", 6: "nothing downstream of a failure runs"},
+			map[int]string{1: "fallback value reaches Results", 2: "predicate true"})
+	}
+	p01 := func() {
+		add("verifHarness_p01", "Par01: Parallel Task/Tasks (4 signatures), symbolic ContinueOnError value, any subset fails or panics",
+			map[int]string{1: "nil iff nothing failed", 2: "every task exactly once when nothing fails", 3: "nothing runs twice", 4: "ContinueOnError: every task runs", 5: "ContinueOnError: one error entry per failure", 6: "ContinueOnError: entries are the tasks' own errors / PanicErrors", 7: "fail-fast: the error is a failed task's error or its PanicError value"},
+			map[int]string{1: "continue-on-error with two failures", 2: "fail-fast with one failure", 3: "no failure"})
+	}
+	p02 := func() {
+		add("verifHarness_p02", "Par02: Slice(index, elem) + SliceEnd, symbolic length 0..3 (incl. nil)",
+			map[int]string{1: "nil iff no element failed and the End hook succeeded", 2: "element function called once per element", 3: "End hook called once", 4: "every (i, s[i]) seen exactly once", 5: "End hook after every element call", 6: "End hook never after a failed element", 7: "ContinueOnError: all elements run", 8: "ContinueOnError: one entry per failure", 9: "no extra calls"},
+			map[int]string{1: "three elements, no failure", 2: "empty/nil slice", 3: "two elements, one failure, continue"})
+	}
+	p04 := func() {
+		add("verifHarness_p04", "Par04: Slice under ContinueOnError(b), b symbolic, symbolic length 0..3, any subset of elements fails or panics",
+			map[int]string{1: "nil iff no element failed", 2: "ContinueOnError(true): every element runs", 3: "ContinueOnError(true): one entry per failure", 4: "no failure: every element runs", 5: "no extra calls"},
+			map[int]string{1: "three elements, two failures, continue", 2: "two elements, one failure, fail-fast"})
+	}
+	p03 := func() {
+		add("verifHarness_p03", "Par03: Slice without index + Slice with context + Task, symbolic lengths 0..3",
+			map[int]string{1: "nil iff nothing failed", 2: "call counts equal the slice lengths", 3: "every element of the no-index slice is delivered", 4: "every (i, s[i]) of the indexed slice exactly once"},
+			map[int]string{1: "lengths 3 and 2"})
+	}
+	switch prop {
+	case "C02":
+		f01ok()
+	case "C04":
+		f01fail()
+		f03()
+		f04()
+		p01()
+		p02()
+		p04()
+	case "C07":
+		f01fail()
+		p01()
+	case "C08":
+		p01()
+		p04()
+	case "C10":
+		p01()
+		p02()
+		p03()
+	case "C11":
+		f03()
+		f04()
+		f05()
 	}
 	return ps
 }
